@@ -106,13 +106,20 @@ class ArbiterWorld(World):
         # the documented type of a feature is wishbone.Feature; strings are accepted too
         spell = (lambda fs: {wishbone.Feature(f) for f in fs}) if config.get("feats_as") == "enum" \
             else (lambda fs: set(fs))
-        dut = hw.construct(wishbone.Arbiter, addr_width=aw, data_width=dw, granularity=g,
-                           features=spell(feats))
+        dut = hw.must_accept("C08" if "C08" in props else "C09",
+                             f"wishbone.Arbiter(addr_width={aw}, data_width={dw}, granularity={g}, "
+                             f"features={sorted(feats)})", wishbone.Arbiter, addr_width=aw,
+                             data_width=dw, granularity=g, features=spell(feats))
         intrs = []
         for i, ic in enumerate(config["intrs"]):
             ib = hw.construct(wishbone.Interface, addr_width=aw, data_width=dw,
                               granularity=ic["g"], features=spell(ic["feats"]), path=(f"i{i}",))
-            hw.construct(dut.add, ib)
+            if all(o in ic["feats"] for o in ("err", "rty") if o in feats):
+                hw.must_accept("C08" if "C08" in props else "C09",
+                               f"Arbiter.add(initiator granularity={ic['g']}, features={ic['feats']})",
+                               dut.add, ib)
+            else:
+                hw.construct(dut.add, ib)
             intrs.append((ib, ic["g"], set(ic["feats"])))
         n = len(intrs)
         if n == 0 or n > 8:
